@@ -4,4 +4,15 @@ from . import disp_common
 TRUSTED_BASE = disp_common.TRUSTED_BASE
 ASSUMPTIONS = disp_common.ASSUMPTIONS
 RULE = disp_common.RULE
-COMPONENTS = [disp_common.component("c12", name="disp")]
+def _vsock_component():
+    # connection level: once our FIN is out the connection keeps a deadline armed (c08_deadline_ok) and the M3
+    # model agrees with the real VirtualSocket on closing scenarios (shared generators + the FIN/RESET/drop
+    # scenarios of C17)
+    from . import vsock_common, c17
+    c = vsock_common.component("c08_deadline_ok", name="vsock_deadline")
+    if hasattr(c17, "gen"):
+        c["gen"] = c17.gen
+    return c
+
+
+COMPONENTS = [disp_common.component("c12", name="disp"), _vsock_component()]
